@@ -276,6 +276,14 @@ pub fn replay_doc(prep: &Prepared, gen: Option<(u64, u64, &str)>, plan: &IoPlan,
 }
 
 fn job_workload(master: u64, job: u64, tier: Tier) -> Workload {
+    if tier == Tier::Thorough && job >= 640 {
+        if let Some(f) = workload::sample_file((job - 640) as usize) {
+            return Workload {
+                file: f,
+                members: Vec::new(),
+            };
+        }
+    }
     let mut rng = Rng::new(derive(master, job));
     let sc = match tier {
         Tier::Quick => {
@@ -614,7 +622,7 @@ impl Engine for IoEngine {
     fn jobs(&self, tier: Tier) -> u64 {
         match tier {
             Tier::Quick => 64,
-            Tier::Thorough => 640,
+            Tier::Thorough => 640 + workload::SAMPLE_FILES.len() as u64,
         }
     }
 
